@@ -44,6 +44,11 @@ CHECKS = {
                 text='For each generated problem the solver is run with a counting quota that turns true at its k-th poll (every k up to 40, then a stride, up to the number of polls of a free run), with the termination criterion firing at its j-th check, '
                      'and with the real 1 s time limit behind a 1.1 s pre-processing step. Every run must return Ok; its recorded sequence of quota polls / termination checks must be a behaviour of the control-loop model Solver.tla (whose invariants - a solution is returned, generations bounded, no generation after the guard saw the stop - are model-checked exhaustively), and the returned solution must satisfy the C01-C03 definitions of VrpModel.',
                 note='trusted: TLC; runs are single threaded so that event order = call order (multi-threaded layouts are exercised by C01/C15 without trace validation); poll points are not labelled by kind (hook H2 not built), the model distinguishes them by position.'),
+    'C09': dict(category='model_checking', design_ref='DESIGN.md section 6 C09', technique='laws model-checked on Order.tla (TLC, exhaustive over the domain), every pair replayed on InsertionCost / Goal and compared by JudgeOrder.tla',
+                text='Order.tla defines the IEEE total order with signed zero, the padded lexicographic cost order, padded addition / subtraction and goal comparison (single layers with the both-zero rule, dominance layers). '
+                     'GenOrder.tla checks the order laws and the add/sub inverse law on the model for every pair / triple of the domain and writes every pair with the model answer; the code must answer the same on all of them (so the laws transfer to the code on the domain), '
+                     'and antisymmetry / reflexivity are also observed directly on the code.',
+                note='trusted: TLC; domain: vectors of length <= 2 (quick) / 3 (thorough) over {-inf,-2,-1,-0,+0,1,2,+inf}, 7 goal shapes; NaN excluded (statement: finite).'),
     'C12': dict(category='model_checking', design_ref='DESIGN.md section 6 C12', technique='TLC enumerates single-breach mutants of valid recorded solutions (Checker.tla over VrpModel), replayed into the bundled checker',
                 text='Positive: every solver-made solution that the specification (VrpModel!Valid) accepts must be accepted by CheckerContext::check. Negative: for a sample of those records TLC enumerates every (breach class, site) mutation '
                      '(misreported load, unknown / duplicated / dropped / split job, assigned and unassigned, arrival / distance / statistic mismatch, capacity below load, distance / duration / tour-size limit, broken relation, misplaced break), keeps those whose mutated pair the specification finds invalid, '
